@@ -757,6 +757,9 @@ func surviveCase(e *ev.Env, c *ev.Case, o appOpts, reqs []*rq, raw []byte, mutat
 		// fasthttp's header check) or a zstd frame declaring a window >= 16 MiB: run it in a
 		// child so that this shard survives.
 		e.Stat("fatal_candidates", 1)
+		if zstdDeclared(raw) >= 16<<20 || zstdDeclared(stripChunkLines(raw)) >= 16<<20 {
+			e.Stat("fatal_candidates_zstd_window", 1)
+		}
 		if !isolated(e, c, "wire.survive", raw, itoa(o.kind)+","+strconv.FormatBool(o.ipValidation)+","+strconv.FormatBool(o.trustProxy)+","+itoa(len(reqs))) {
 			return
 		}
